@@ -9,6 +9,42 @@ pub fn build(tree: &HNode) -> Result<G, GameError> {
     Game::from_root(tree.clone())
 }
 
+/// A key type whose `Hash` is legal but as weak as it gets: equal keys hash equally, and so do
+/// most unequal ones (only the parity of the length is hashed). The library is generic over its
+/// infoset, action and chance-infoset types (`Hash + Eq`); nothing may depend on hashes being
+/// distinct.
+#[derive(Clone, Debug, PartialEq, Eq)]
+pub struct WeakKey(pub String);
+
+impl std::hash::Hash for WeakKey {
+    fn hash<H: std::hash::Hasher>(&self, state: &mut H) {
+        (self.0.len() % 2).hash(state)
+    }
+}
+
+/// The harness tree presented with [WeakKey] names
+pub struct WNode(pub HNode);
+
+impl cfr::IntoGameNode for WNode {
+    type PlayerInfo = WeakKey;
+    type Action = WeakKey;
+    type ChanceInfo = WeakKey;
+    type Outcomes = Vec<(f64, WNode)>;
+    type Actions = Vec<(WeakKey, WNode)>;
+
+    fn into_game_node(self) -> cfr::GameNode<Self> {
+        match self.0 {
+            HNode::Term(pay) => cfr::GameNode::Terminal(pay),
+            HNode::Chance { info, outs } => cfr::GameNode::Chance(info.map(WeakKey), outs.into_iter().map(|(w, n)| (w, WNode(n))).collect()),
+            HNode::Player { p, info, acts } => cfr::GameNode::Player(crate::tree::pnum(p as usize), WeakKey(info), acts.into_iter().map(|(a, n)| (WeakKey(a), WNode(n))).collect()),
+        }
+    }
+}
+
+pub fn build_weak(tree: &HNode) -> Result<Game<WeakKey, WeakKey>, GameError> {
+    Game::from_root(WNode(tree.clone()))
+}
+
 /// Profile as the public named view shows it (zero-probability actions omitted by the library
 /// become 0). Errors if the view is not a well-formed listing of the game's infosets.
 pub fn named_profile(flat: &Flat, strat: &S) -> Result<Profile, String> {
